@@ -451,6 +451,14 @@ Print Assumptions C18_reject_nested_length_prefix.
    against (Base/StateExpected.v).  A new field or variable (a cache, a memo, a pool, a counter,
    a changed field type) is state the models do not have: this obligation then breaks and the
    property is no longer shown to hold until the change has been reviewed against the model. *)
+(* (For C18: a decoder that starts goroutines — a `go` statement or a worker
+   count taken from runtime.GOMAXPROCS in sha2pc — is a change of this
+   inventory: it makes a decoder's result depend on the environment, which the
+   pure model cannot express.  This obligation is the STATIC flag for such a
+   change; the matching dynamic search is the harness's environment family:
+   codec round trip, restart family and malformed tail points of Round2 under
+   several GOMAXPROCS values, keys c18:<Decoder>:gomaxprocs=<n>:... and
+   c18:resume:gomaxprocs=<n>.) *)
 Theorem C18_state_inventory :
   Mpc.Base.StateCheck.state_unchanged Mpc.Gen.State.state_inventory Mpc.Base.StateExpected.expected_state
     Mpc.Base.StatePkgs.pkgs_C18 = true.
